@@ -385,16 +385,61 @@ def r2_fresh(program, rep, B, folder):
               "the counter is created once, in __init__, so numbering "
               "continues across bursts", construct="seq counter creation",
               node=init)
+    r2_seq_numbers(program, rep, folder)
+
+
+def r2_seq_numbers(program, rep, folder):
+    """seqs(): what is yielded is 0 or something ANDed with the mask as the
+    last operation, and the mask is, by default, the 16 bits of the wire
+    field (C15: '<2H').  A mask applied before the increment yields mask + 1
+    at the wrap - a number the field cannot hold: struct.error on a healthy
+    machine after 65536 commands."""
     seqs = program.get(MOD + ":seqs")
     mask_default = None
     if seqs.args.defaults:
         mask_default = folder.eval(seqs.args.defaults[-1], {}, seqs._module)
     S = Terms(seqs)
+    if not seqs.args.args:
+        raise AnalysisError("seqs(): no mask parameter")
     M = ("param", seqs.args.args[0].arg)
-    okm = any(st_[0] == "binop" and st_[1] == "BitAnd" and M in (st_[2],
-                                                                 st_[3])
-              for b_ in S.binds if b_.mode in ("assign", "aug") and
-              b_.value is not None for st_ in subterms(S._bind_term(b_)))
+    ys = [y for y in ast.walk(seqs) if isinstance(y, ast.Yield)]
+    if not ys or any(not isinstance(y.value, ast.Name) for y in ys) or \
+            len(set(y.value.id for y in ys)) != 1:
+        raise AnalysisError("seqs(): the number yielded is not one local "
+                            "variable")
+    okm = True
+    late = []
+    n = 0
+    for y in ys:
+        yn = S.cfg.node_containing(y)
+        for t in alternatives(S.term(y.value, yn)):
+            t = plain(t)
+            n += 1
+            if t[0] == "const" and isinstance(t[1], int) and t[1] == 0:
+                continue
+            if t[0] == "binop" and t[1] == "BitAnd" and M in (t[2], t[3]):
+                continue
+            if t[0] == "binop" and t[1] == "Mod" and t[3][0] == "binop" and \
+                    t[3][1] == "Add" and M in (t[3][2], t[3][3]) and \
+                    ("const", 1) in (t[3][2], t[3][3]):
+                continue        # % (mask + 1)
+            if t[0] == "rec":
+                continue
+            if any(st_[0] == "binop" and st_[1] == "BitAnd" and
+                   M in (st_[2], st_[3]) for st_ in subterms(t)):
+                late.append(y)
+            else:
+                okm = False
+    if n == 0:
+        raise AnalysisError("seqs(): the counter is never bound")
+    rep.check(not late, "C06-R2", qual(seqs), "the mask is the last "
+              "operation on a number before it is yielded",
+              construct="seq mask last", positive=True,
+              node=late[0] if late else seqs,
+              fail="the mask is applied before the arithmetic, not after "
+                   "it: at the wrap the generator yields mask + 1 (0x10000), "
+                   "which the 16-bit field cannot hold - struct.error on a "
+                   "healthy machine")
     rep.check(okm and mask_default == 0xffff, "C06-R2", qual(seqs),
               "sequence numbers are masked to 16 bits (the '<2H' wire field)",
               construct="seq mask %r" % (mask_default,), node=seqs)
@@ -840,6 +885,17 @@ def check(program, rep):
 
 def r5_codes(program, rep, folder, fn, fl, cfg, inst):
     # ---- R5 return codes ------------------------------------------------------------------
+    rc, retry, fatal = r5_code_tables(program, rep, folder)
+    return _r5_codes_rest(program, rep, folder, fn, fl, cfg, inst, rc, retry,
+                          fatal)
+
+
+def r5_code_tables(program, rep, folder):
+    """The return-code tables: the members carry the numbers SC&MP sends,
+    and every member other than ok is in exactly one of the retryable / fatal
+    tables (a code in neither makes FatalReturnCodeError.__init__ fail with
+    KeyError - not an SCPError, so callers that treat a failed command as a
+    dead chip crash instead)."""
     rc = folder.name(CONSTS, "SCPReturnCodes")
     retry = folder.name(CONSTS, "RETRYABLE_SCP_RETURN_CODES")
     fatal = folder.name(CONSTS, "FATAL_SCP_RETURN_CODES")
@@ -866,6 +922,15 @@ def r5_codes(program, rep, folder, fn, fl, cfg, inst):
               construct="partition missing=%s overlap=%s" % (
                   sorted(allm - rnames - fnames - {"ok"}),
                   sorted(rnames & fnames)))
+    return rc, retry, fatal
+
+
+def _r5_codes_rest(program, rep, folder, fn, fl, cfg, inst, rc, retry, fatal):
+    rnames = set(m.name for m in retry)
+    fnames = set(m.name for m in fatal)
+    members = {m.name: m.value for m in rc}
+    allm = set(members)
+    rinst = CONSTS + ":SCPReturnCodes"
     # receive loop: non-ok -> retryable: nothing happens; else raise
     T = Terms(fn)
     OK = ("attr", ("attr", ("global", "consts"), "SCPReturnCodes"), "ok")
